@@ -456,9 +456,16 @@ func (e *encoderState) AppendRaw(k Kind, safeASCII bool, appendFn func([]byte) (
 		// Append directly into the encoder buffer by assuming that
 		// most of the time none of the characters need escaping.
 		b = append(b, '"')
-		if b, err = appendFn(b); err != nil {
+		// The append function may be provided by the user
+		// (e.g., an encoding.TextAppender). Do not trust it to return
+		// the provided buffer extended with the text: only hand it
+		// the unused capacity and append whatever it returns,
+		// which is a no-op copy if it did append in place.
+		text, err := appendFn(b[len(b):])
+		if err != nil {
 			return err
 		}
+		b = append(b, text...)
 		b = append(b, '"')
 
 		// Check whether we need to escape the string and if necessary
